@@ -3,7 +3,7 @@ CONSTANTS
   ValueStacks = {"a", "b"}
   Unbounded = 1000000
   MaxCalls = 5
-  SizeChoices = {1, 2}
+  SizeChoices = {1, 3}
   ValueLists <- VL
   Progs <- PG
 INVARIANTS ContentsAsSupplied MaxIsLastSet WithinMax ProgramOrder BuildNeedsEverything NoResizeAfterData InputsByName EmitCases
